@@ -194,6 +194,7 @@ type harnessReport struct {
 	Truncated    int64            `json:"truncated"`
 	Unsupported  int64            `json:"unsupported"`
 	Unexplored   int64            `json:"unexplored"`
+	Infeasible   int64            `json:"infeasible_paths_dropped"`
 	Instr        int64            `json:"ssa_instructions_executed"`
 	Branch       int64            `json:"branch_queries"`
 	AssertQ      int64            `json:"assert_queries"`
@@ -374,6 +375,15 @@ func cmdRun(args []string) int {
 				Solver: symgo.SolverByName(envOr("VERIF_SOLVER", "cvc5"), qt), OwnPkg: ld.own,
 				MaxInstr: h.MaxInstr, MaxViol: 40, Deadline: time.Now().Add(budget), Verbose: verbose,
 			}
+			if fx := os.Getenv("VERIF_FIX"); fx != "" { // debugging aid: name#k=int,... pins choices (one path family)
+				cfg.FixedInputs = map[string]any{}
+				for _, kv := range strings.Split(fx, ",") {
+					if k, v, ok := strings.Cut(strings.TrimSpace(kv), "="); ok {
+						n, _ := strconv.ParseUint(v, 10, 64)
+						cfg.FixedInputs[k] = n
+					}
+				}
+			}
 			hfn := h.Fn
 			cfg.IsKnown = func(v *symgo.Violation) bool { return matchFinding(findings, id, hfn, v) != nil }
 			if tier == "thorough" && h.Cross {
@@ -384,7 +394,7 @@ func cmdRun(args []string) int {
 			st := res.Stats
 			rep := harnessReport{Unit: u.PkgPath, Harness: h.Fn, Params: params, Paths: st.Paths, Completed: st.Completed,
 				Aborted: st.Aborted, SymPaths: st.SymPaths, Truncated: st.Truncated, Unsupported: st.Unsupported,
-				Unexplored: st.Unexplored, Instr: st.Instr, Branch: st.BranchQueries, AssertQ: st.AssertQueries,
+				Unexplored: st.Unexplored, Infeasible: st.InfeasibleDropped, Instr: st.Instr, Branch: st.BranchQueries, AssertQ: st.AssertQueries,
 				AssertUnsat: st.AssertUnsat, AssertSat: st.AssertSat, AssertUnk: st.AssertUnknown, AssertConc: st.AssertConcrete,
 				BranchUnk: st.BranchUnknown, Implicit: st.ImplicitChecks, ConvUndef: st.ConvUndef, Concretised: st.Concretised,
 				Cross: st.CrossChecked, CrossUnk: st.CrossUnknown, CrossDis: st.CrossDisagree, Queries: st.Queries,
